@@ -15,6 +15,8 @@ pub enum Case {
     Boundary { suite: SuiteId, mode: Mode, ctx_len: usize, tag: u64 },
     Sweep { suite: SuiteId, ctx_len: usize, l_from: usize, l_to: usize },
     ExportOnlyPanics { suite: SuiteId, mode: Mode },
+    /// every exporter-context length in a range, two values of L
+    CtxSweep { suite: SuiteId, from: usize, to: usize },
 }
 
 pub struct C11;
@@ -49,13 +51,13 @@ impl Part for C11 {
         "E1-export-values".into()
     }
     fn rule(&self) -> String {
-        "48 suites x 4 modes x both roles x exporter-context lengths x the boundary set of L (0,1,Nh-1,Nh,Nh+1,...,255Nh-1,255Nh,255Nh+1,65535,65536,65537,100000): value = R1 LabeledExpand(exporter_secret,\"sec\",ctx,L) compared in full, Ok iff L <= 255*Nh else KdfOutputTooLong, sender = receiver, repeated call = same bytes, also after seals/opens/rejections; full sweep of EVERY L in 0..=255*Nh+2 for one suite per KDF; export-only suites: every seal/open form must panic and never return; non-trivial = every case".into()
+        "48 suites x 4 modes x both roles x exporter-context lengths x the boundary set of L (0,1,Nh-1,Nh,Nh+1,...,255Nh-1,255Nh,255Nh+1,65535,65536,65537,100000): value = R1 LabeledExpand(exporter_secret,\"sec\",ctx,L) compared in full, Ok iff L <= 255*Nh else KdfOutputTooLong, sender = receiver, repeated call = same bytes, also after seals/opens/rejections; full sweep of EVERY L in 0..=255*Nh+2 for one suite per KDF; sweep of EVERY exporter-context length in a range; export-only suites: every seal/open form must panic and never return; non-trivial = every case".into()
     }
     fn bound(&self, cfg: &Cfg) -> String {
         if cfg.tier.thorough() {
-            "boundary set (20 L values) x 7 context lengths x 48 suites x 4 modes x 2 roles; sweep of all L in 0..=255*Nh+2 for 3 KDFs x 2 context lengths x 2 roles".into()
+            "boundary set (20 L values) x 7 context lengths x 48 suites x 4 modes x 2 roles; sweep of all L in 0..=255*Nh+2 for 3 KDFs x 2 context lengths x 2 roles; every context length 0..=1200 for 3 suites and 0..=140 for all 48".into()
         } else {
-            "boundary set (20 L values) x 3 context lengths x 48 suites x 4 modes x 2 roles; sweep of all L in 0..=8*Nh+2 and 247*Nh..=255*Nh+2 for 3 KDFs".into()
+            "boundary set (20 L values) x 3 context lengths x 48 suites x 4 modes x 2 roles; sweep of all L in 0..=8*Nh+2 and 247*Nh..=255*Nh+2 for 3 KDFs; every context length 0..=300 for 3 suites".into()
         }
     }
     fn enumerate(&self, cfg: &Cfg) -> Vec<Case> {
@@ -88,6 +90,17 @@ impl Part for C11 {
                         f += chunk;
                     }
                 }
+            }
+        }
+        // every exporter-context LENGTH 0..=N (block boundaries of the hash, small stack buffers): one suite per KDF,
+        // and every suite for the first 140 lengths in the thorough tier
+        for suite in all_suites() {
+            let main = matches!((suite.kem, suite.kdf, suite.aead), (Kem::X25519, Kdf::Sha256, Aead::ChaCha20Poly1305) | (Kem::P256, Kdf::Sha384, Aead::ExportOnly) | (Kem::X25519, Kdf::Sha512, Aead::Aes128Gcm));
+            let n = if main { if t { 1200 } else { 300 } } else if t { 140 } else { continue };
+            let mut f = 0;
+            while f <= n {
+                v.push(Case::CtxSweep { suite, from: f, to: (f + 99).min(n) });
+                f += 100;
             }
         }
         v
@@ -180,6 +193,40 @@ impl Part for C11 {
                         export_check(&mut out, &refctx, s.export(&ectx, l), &ectx, l, "sender sweep");
                     } else {
                         export_check(&mut out, &refctx, r.export(&ectx, l), &ectx, l, "receiver sweep");
+                    }
+                }
+            }
+            Case::CtxSweep { suite, from, to } => {
+                out.outcome = format!("ctx-sweep/{:?}", suite.kdf);
+                let ops = suite_ops(*suite);
+                let k = keys(suite.kem, 11997, cfg.seed);
+                let info = bytes(Fill::Mix, 9, 10, cfg.seed);
+                let m = mode_spec(Mode::Base, &k, b"", b"");
+                let (enc, refctx) = match r1_setup_s(*suite, &m, &k.pk_r, &info, &k.ikm_e) {
+                    Some(x) => x,
+                    None => {
+                        out.fail_machinery("R1 setup failed");
+                        return out;
+                    }
+                };
+                let mut rng = ScriptRng::new(&k.ikm_e);
+                let (s, r) = match (ops.setup_sender(&m, &k.pk_r, &info, &mut rng).need("setup_sender"), ops.setup_receiver(&m, &k.sk_r, &enc, &info).need("setup_receiver")) {
+                    (Ok(s), Ok(r)) => (s.1, r),
+                    (Err(e), _) | (_, Err(e)) => {
+                        out.fail(e);
+                        return out;
+                    }
+                };
+                let nh = suite.kdf.nh();
+                for cl in *from..=*to {
+                    // contexts of neighbouring lengths share a prefix, so a dropped or duplicated tail byte shows
+                    let ectx = bytes(Fill::Mix, *to + 1, 15, cfg.seed)[..cl].to_vec();
+                    for l in [nh + 1, 16] {
+                        if cl % 2 == 0 {
+                            export_check(&mut out, &refctx, s.export(&ectx, l), &ectx, l, "sender context-length sweep");
+                        } else {
+                            export_check(&mut out, &refctx, r.export(&ectx, l), &ectx, l, "receiver context-length sweep");
+                        }
                     }
                 }
             }
